@@ -87,7 +87,7 @@ def showReasons (rs : List String) : List String := rs.eraseDups
     `c11 count filter docs skip limit`                  limit = N (absent) | I<n> | S.. (not a number)
     `c11 agg   docs stages`
     `c11 hist  ops`
-    `c11 key   key doc`                                  the sort key `(rank, value)`
+    `c11 key   key doc`                                  the ascending sort key `(rank, value)`
     answer: `impl | spec | reasons` -/
 def handle (ts : List String) : Option (List String) :=
   match ts with
@@ -153,7 +153,7 @@ def handle (ts : List String) : Option (List String) :=
           let s := Store.runOps [] ops
           some (showVals s.docs ++ bar ++ showVals (Spec.Order.naturalIds [] ops) ++ bar)
       | "key", [.str key, d] =>
-        some (showR (fun k => [s!"I{k.rank}"] ++ showVal k.val) (resolveSortKey key d)
+        some (showR (fun k => [s!"I{k.rank}"] ++ showVal k.val) (resolveSortKey key false d)
           ++ bar ++ (let k := Spec.Order.docKey key false d; [s!"I{k.rank}"] ++ showVal k.val)
           ++ bar ++ showReasons (Spec.Order.keyReasons key d))
       | _, _ => some ["?parse"]
